@@ -1,4 +1,5 @@
 import RavenModel.Model.Resp
+import RavenModel.Gen.Facts
 /-! # C13 — every IMAP response is well-formed, whatever the stored data
 
 `Resp.readVal` / `readLine` / `readResponse` are the strict reader the harness runs on the server's raw byte stream; the
@@ -68,5 +69,11 @@ example : readVal 20 (render (assemble [((b!"BODY[HEADER]"), .literal (b!"A: b\r
     decide
   · decide
   · decide
+
+/-- C13.7  nothing the three protocol services send is produced by Go's own string quoting (`strconv.Quote…`, the `%q` verb):
+its escapes (`\x..`, `\u....`, `\t`) put a backslash in front of characters that are not quoted-specials, which a strict
+reader refuses; what is quoted goes through the escaping that `quoted_roundtrip` is about. Regenerated from /repo on every
+run. -/
+theorem no_go_quoting : Raven.Gen.goQuoting = [] := by decide
 
 end Raven.Props.C13
